@@ -345,7 +345,7 @@ Proof.
   assert (M2 : forall x a b, lookup (hp s) x = Some a -> lookup (hp s2) x = Some b -> mm b = true -> mm a = true).
   { intros x a b Ea Eb Mb. pose proof (u_struct _ _ Un x) as Hs. unfold same_node_structure in Hs. rewrite Ea in Hs.
     destruct (lookup h1 x) as [m|] eqn:Em; [|contradiction].
-    destruct (u_node _ _ Un x a m Ea Em) as (_ & _ & Mm). apply Mm.
+    destruct (u_node _ _ Un x a m Ea Em) as (_ & _ & Mm & _). apply Mm.
     destruct (c_node _ _ Ck x m b Em Eb) as (_ & _ & M & _). congruence. }
   destruct r.
   - destruct (lock_ fuel (hp s2) n) as [h3|] eqn:LK; [|discriminate]. inversion U. subst s' out.
@@ -356,8 +356,14 @@ Proof.
     pose proof (g_struct _ _ G x) as Hs. unfold same_node_structure in Hs. rewrite Eb in Hs.
     destruct (lookup (hp s2) x) as [m|] eqn:Em; [|contradiction].
     destruct (g_node _ _ G x m b Em Eb) as (_ & M & _ & _). eapply M2; [exact Ea|exact Em|congruence].
-  - inversion U. subst s' out. split; [eapply same_struct_trans; [apply Un|apply Ck]|].
-    split; [apply (c_dead _ _ Ck)|]. split; [exact M2|left; reflexivity].
+  - inversion U. subst s' out. cbn [hp with_hp dead].
+    split; [eapply same_struct_trans; [apply Un|eapply same_struct_trans; [apply Ck|apply unshare_struct]]|].
+    split; [apply (c_dead _ _ Ck)|]. split; [|left; reflexivity].
+    intros x a b Ea Eb Mb.
+    assert (S02 : same_struct (hp s) (hp s2)) by (eapply same_struct_trans; [apply Un|apply Ck]).
+    pose proof (S02 x) as Hs. unfold same_node_structure in Hs. rewrite Ea in Hs.
+    destruct (lookup (hp s2) x) as [m|] eqn:Em; [|contradiction].
+    eapply M2; [exact Ea|exact Em|]. eapply unshare_mm; eassumption.
 Qed.
 
 (* a failed unlock_ restores every flag (the re-lock goes through the whole subtree again) *)
@@ -381,6 +387,28 @@ Proof.
   apply NN. intros R. assert (flag_true h3 x = true); [|congruence].
   eapply plock_reach_flag; [exact P|eapply same_struct_reach; [exact S02|exact R]|].
   eapply same_struct_some; [exact S02|]. apply flag_true_lookup in Fx. destruct Fx as [a [Ea _]]. congruence.
+Qed.
+
+(* a refused unlock_ leaves _is_shared / _is_memmap of every node as they were (D68 repaired) *)
+Lemma unlock_raised_keeps_sharing : forall fuel s n s' e, unlock_ fuel s n = Some (s', Raised e) ->
+  forall x a b, lookup (hp s) x = Some a -> lookup (hp s') x = Some b -> shm a = shm b /\ mm a = mm b.
+Proof.
+  intros fuel s n s' e U x a b Ea Eb. unfold unlock_ in U.
+  destruct (punlock fuel (hp s) n) as [[h1 subs]|] eqn:PU; [|discriminate].
+  destruct (check_all fuel (with_hp s h1) (subs ++ [n])) as [[s2 r]|] eqn:CA; [|discriminate].
+  destruct (punlock_spec _ _ _ _ _ PU) as (Un & _).
+  destruct (check_all_spec _ _ _ _ _ CA) as [Ck _].
+  destruct r; [|inversion U].
+  destruct (lock_ fuel (hp s2) n) as [h3|] eqn:LK; [|discriminate]. inversion U. subst s' e. cbn in Eb.
+  pose proof (lock_grows _ _ _ _ LK) as G.
+  pose proof (u_struct _ _ Un x) as Hs1. unfold same_node_structure in Hs1. rewrite Ea in Hs1.
+  destruct (lookup h1 x) as [m1|] eqn:E1; [|contradiction].
+  pose proof (c_struct _ _ Ck x) as Hs2. unfold same_node_structure in Hs2. cbn in Hs2. rewrite E1 in Hs2.
+  destruct (lookup (hp s2) x) as [m2|] eqn:E2; [|contradiction].
+  destruct (u_node _ _ Un x a m1 Ea E1) as (_ & _ & _ & A1 & B1).
+  destruct (c_node _ _ Ck x m1 m2 E1 E2) as (_ & A2 & B2 & _).
+  destruct (g_node _ _ G x m2 b E2 Eb) as (A3 & B3 & _).
+  split; congruence.
 Qed.
 
 (* a node of the subtree with a live locked parent outside the subtree makes unlock_ fail *)
@@ -423,7 +451,7 @@ Proof.
   destruct (punlock_spec _ _ _ _ _ PU) as (Un & Fr & Cl & Sub & Dp).
   destruct (check_all_spec _ _ _ _ _ CA) as [Ck _].
   destruct r; [destruct (lock_ fuel (hp s2) n); [inversion U|discriminate]|].
-  inversion U. subst s'. rewrite (chk_flag _ _ _ Ck). cbn. apply Cl. exact R.
+  inversion U. subst s'. cbn [hp with_hp]. rewrite unshare_flag. rewrite (chk_flag _ _ _ Ck). cbn. apply Cl. exact R.
 Qed.
 
 Lemma check_all_raised : forall fuel l s s', check_all fuel s l = Some (s', true) ->
@@ -676,4 +704,12 @@ Proof.
     eapply plock_reach_flag; [exact L|exact R0|].
     clear - R0 Xr HI. induction R0 as [n|n c m Hc _ IH]; [exact Xr|]. apply IH.
     destruct (inv_closed _ HI) as [C1 _]. eapply C1. exact Hc.
+Qed.
+
+(* D68 repaired: a refused unlock_ call leaves _is_shared / _is_memmap of every node as they were *)
+Theorem refused_unlock_keeps_sharing : forall fuel s n s' e, step fuel s (OUnlock n) = Some (s', Raised e) ->
+  forall x a b, lookup (hp s) x = Some a -> lookup (hp s') x = Some b -> shm a = shm b /\ mm a = mm b.
+Proof.
+  intros fuel s n s' e H. cbn [step] in H. destruct (exists_live s n); cbn [negb] in H; [|discriminate].
+  eapply unlock_raised_keeps_sharing. exact H.
 Qed.
